@@ -140,7 +140,7 @@ def main(tier, seed):
         design_mc.run(rep, "C08", seed, n=3, nf=3, ng=2, permops=True)
         traces(rep, 1500, seed)
     else:
-        design_mc.run(rep, "C08", seed, n=4, nf=3, ng=2, permops=True)
+        design_mc.run(rep, "C08", seed, n=4, nf=3, ng=2, permops=True, sample=120000, timeout=6000)
         traces(rep, 30000, seed)
     rep.exhaustive = True
     return rep.finish()
